@@ -16,8 +16,8 @@ DRV = ("COMPOSITION (spelling drivers, layer L3c), proved for English, Spanish a
        "offered in order to the language's word model from a fresh builder, are all accepted (link words: and / y / et) and leave exactly the decimal digits of n "
        "(machine-checked induction over the four three-digit groups. English: every placement of 'and', space or hyphen between tens and units - the hyphenated "
        "word goes through the compound branch. Spanish: long scale 'mil millones', one-word forms up to veintinueve, apocopated un / veintiun, 'mil' without 'un'. "
-       "French: soixante-dix / quatre-vingt(s) / quatre-vingt-dix, 'et' before un and onze, cent(s), mille, million(s), milliard(s), written as separate words, the "
-       "blocking flags between words tracked). A verified exec driver per language then shows, from the CONTRACTS of the real exec_group (both directions), apply and "
+       "French: soixante-dix / quatre-vingt(s) / quatre-vingt-dix, 'et' before un and onze, cent(s), mille, million(s), milliard(s), the tens and units written as separate words or "
+       "as one hyphenated word (dix-sept, vingt-et-un, quatre-vingt-dix-neuf: compound branch), the blocking flags between words tracked). A verified exec driver per language then shows, from the CONTRACTS of the real exec_group (both directions), apply and "
        "format_and_value only, that validating those words returns one number whose builder holds exactly those digits and whose text is those digits. ")
 
 CLAIMED = {
@@ -28,13 +28,13 @@ CLAIMED = {
                 "performs exactly the place-value instruction the grammar prescribes (digits, guard, blocking flags), and a comma is never a number word; the "
                 "DigitString operations themselves have strongest-postcondition contracts (C12). For de/it/nl the splitter's pattern list in Default::default is "
                 "proved equal to the frozen list and every table word is proved not to be split. The error of a refused phrase is specified too (exec_group / text2digits, "
-                "both directions). " + DRV + "NOT proved: the composition for pt, it, de, nl (bounded evidence only); fully hyphenated French and the glued compounds "
+                "both directions). " + DRV + "NOT proved: the composition for pt, it, de, nl (bounded evidence only); French with hyphens beyond the tens-units word (the 1990 all-hyphen spelling) and the glued compounds "
                 "of de/nl/it beyond 'the group result is placed as a whole under the Overlap guard' (the daachorse automaton and str::split are assumed); the same phrase "
                 "found inside a sentence by the scanner (only the generic scanner theorems of C06/C07 apply). For interpreters that declare a word model (en, es, fr) exec_group and text2digits "
                 "have a functional contract: the result IS the fold of that model over the words (text2digits: over the lower-cased, whitespace-separated words, rendered by the language), "
                 "so the text-level statement is the driver theorem substituted into text2digits' contract (two units, both machine-checked, one substitution on paper).",
-        "note": TRUST + "Known finding (German 'eine Million') listed in known_findings.txt. A-SPLIT / A-DASH (English hyphenated words): str::split('-') is an uninterpreted "
-                "function with the axiom 'two dash-free pieces joined by one dash split back into those pieces', and the hoisted call exec_group(word.split('-')) is assumed to "
+        "note": TRUST + "Known finding (German 'eine Million') listed in known_findings.txt. A-SPLIT / A-DASH (English and French hyphenated words): str::split('-') is an uninterpreted "
+                "function with the axiom 'dash-free pieces joined by single dashes split back into those pieces', and the hoisted call exec_group(word.split('-')) is assumed to "
                 "compute the fold of the word model over the parts. Bounded evidence for the languages without driver (thorough tier only, never counted as "
                 "proof): about 2 800 spelled integers per language and seed from independent spellers (tools/spell.py) agree with text2digits and the rewriter.  WordSplitter (daachorse) has an assumed contract: is_splittable == "
                 "'some pattern occurs and the word is not itself a pattern'; Italian/German/Dutch values are assumed to come from Default::default (private field).",
